@@ -9,6 +9,8 @@ name, 204 pass it on - the exception is frozen below with its reason):
               does not happen
   .same-name  a function holding parameter p that calls a repository function which also takes p passes p on (otherwise the
               callee silently runs with its default)
+  .none-test  a parameter annotated Optional[int] / Optional[float] is never tested by truthiness (0 is a value)
+  .swapped    two arguments that are themselves parameter names of the callee are not passed in each other's slot
   .kwargs     a **kwargs dictionary that is forwarded with ** reaches the call unfiltered (no comprehension with a condition
               over it in between)
 
@@ -141,7 +143,14 @@ def missing_same_name(ff: FuncFlow) -> List[Tuple[ast.Call, FuncInfo, str]]:
     r = ff.callee(c)
     given |= set((r.bound_kwargs or {}).keys())
     all_params = [p for p in _params(g) if p not in ('self', 'cls')]
+    # **kwargs held by the caller and accepted by the callee, but not splatted into the call: the overrides are dropped
+    gk = g.node.args.kwarg.arg if g.node.args.kwarg else None
+    fk = fi.node.args.kwarg.arg if isinstance(fi.node, (ast.FunctionDef, ast.AsyncFunctionDef)) and fi.node.args.kwarg else None
+    if gk is not None and fk is not None and gk == fk:
+      out.append((c, g, '**' + gk))
     for p in all_params:
+      if p == gk or (g.node.args.vararg is not None and p == g.node.args.vararg.arg):
+        continue
       if p in held and p not in given:
         # only parameters the callee can do without (a default): otherwise the call would not run at all
         if g.param_default(p) is None and not _has_kw_default(g, p):
@@ -178,6 +187,36 @@ def filtered_kwargs(ff: FuncFlow) -> List[Tuple[ast.Call, str]]:
   return out
 
 
+def truthiness_of_optional_numbers(fi: FuncInfo) -> List[Tuple[ast.AST, str]]:
+  """Truthiness tests (if p / p or d / not p / p and ...) of a parameter annotated Optional[int] / Optional[float]: 0 is a value,
+  not "unset". The pinned tree has none (20 truthiness tests of parameters, all on bool or Optional[Mapping])."""
+  node = fi.node
+  names = set()
+  for a in node.args.posonlyargs + node.args.args + node.args.kwonlyargs:
+    ann = txt(a.annotation) if a.annotation is not None else ''
+    if 'Optional' in ann and ('int' in ann or 'float' in ann) and 'Mapping' not in ann and 'Callable' not in ann and 'Sequence' not in ann:
+      names.add(a.arg)
+  if not names:
+    return []
+  # names rebound inside the function no longer hold the parameter
+  for x in ast.walk(node):
+    if isinstance(x, ast.Name) and isinstance(x.ctx, ast.Store) and x.id in names:
+      names.discard(x.id)
+  out = []
+  for x in ast.walk(node):
+    tests = []
+    if isinstance(x, (ast.If, ast.IfExp, ast.While, ast.Assert)):
+      tests.append(x.test)
+    elif isinstance(x, ast.UnaryOp) and isinstance(x.op, ast.Not):
+      tests.append(x.operand)
+    elif isinstance(x, ast.BoolOp):
+      tests += x.values
+    for t in tests:
+      if isinstance(t, ast.Name) and t.id in names:
+        out.append((t, t.id))
+  return out
+
+
 def check_forwarding(check, funcs: Iterable[FuncInfo], rule: str = 'R-FORWARD'):
   repo = check.repo
   n_params = n_sites = 0
@@ -194,6 +233,9 @@ def check_forwarding(check, funcs: Iterable[FuncInfo], rule: str = 'R-FORWARD'):
       check.ob(rule + '.unused', fi, f'parameter {p}', False,
                f'parameter `{p}` of {fi.qualname} is never read (nor discarded with `del {p}`): what it configures is silently ignored',
                node=fi.node)
+    for t, p in truthiness_of_optional_numbers(fi):
+      check.ob(rule + '.none-test', fi, f'truth test of {p}', False,
+               f'`{p}` is an optional number: testing it by truthiness treats an explicit 0 / 0.0 like "not given" (use `is None`)', node=t)
     try:
       ff = FuncFlow.of(repo, fi)
     except Exception:  # pylint: disable=broad-except
@@ -207,6 +249,18 @@ def check_forwarding(check, funcs: Iterable[FuncInfo], rule: str = 'R-FORWARD'):
         continue
       check.ob(rule + '.same-name', fi, txt(c)[:90], False,
                f'{fi.qualname} holds `{p}` but calls {g.qualname} without it: the callee silently uses its default for `{p}`', node=c)
+    from fjsa.flow import bound_args
+    for _, c in ff.calls():
+      info = _callee_info(ff, c)
+      if info is None:
+        continue
+      g = info[0]
+      gnames = set(_params(g)) - {'self', 'cls'}
+      for p, a in bound_args(ff, c).items():
+        if isinstance(a, ast.Name) and a.id != p and a.id in gnames and p in gnames:
+          check.ob(rule + '.swapped', fi, txt(c)[:90], False,
+                   f'`{a.id}` is passed where {g.qualname} expects `{p}`, although {g.qualname} has a parameter called `{a.id}`: '
+                   'the two arguments are in each other\'s place', node=a)
     for c, how in filtered_kwargs(ff):
       check.ob(rule + '.kwargs', fi, txt(c)[:90], False,
                f'the keyword arguments are filtered ({how}) before they are forwarded: some of the caller\'s overrides are dropped', node=c)
